@@ -107,10 +107,10 @@ pub fn run(ctx: &mut Ctx) {
         extras: true,
         all_widths: false,
     };
-    ctx.meta("rule", "cases: (tree, subset of masters encoded with unknown size, marker width); trees = every forest over V up to the node bound + the deep spines; all 2^m subsets; encoded by RefEncoder (1- and 8-byte all-ones markers; plus > 64 KiB documents with long headers at every alignment around the buffer boundary) and, independently, by the real TagWriter with write_advanced(unknown). Excluded by construction: a global element as the first element after an unknown-size master's last descendant. Oracle: strict parse == flatten(tree) with RefEncoder offsets (Ends before the closing element), and == the all-known encoding's tags. Non-trivial: encodings where an unknown-size master is closed by something other than its own sibling.");
+    ctx.meta("rule", "cases: (tree, subset of masters encoded with unknown size, marker width); trees = every forest over V up to the node bound + the deep spines; all 2^m subsets; encoded by RefEncoder (1- and 8-byte all-ones markers; plus > 64 KiB documents with long headers at every alignment around the buffer boundary) and, independently, by the real TagWriter with write_advanced(unknown). Excluded by construction: a global element as the first element after an unknown-size master's last descendant. Oracle: strict parse == flatten(tree) with RefEncoder offsets (Ends before the closing element), and == the all-known encoding's tags; with unknown ids tolerated, the same for every tree with one element of an id outside the specification put at every position (it is an ordinary child and ends nothing). Non-trivial: encodings where an unknown-size master is closed by something other than its own sibling.");
     ctx.meta("bounds", &format!("forests <= {} elements over V (5 master levels), all subsets, devs <= {}", p.max_nodes, p.devs));
     ctx.meta("assumptions", "payload values irrelevant to closing decisions (default tiny payloads)");
-    for c in ["closed_by_sibling", "closed_by_element_one_level_up", "closed_by_element_two_or_more_levels_up", "closed_by_enclosing_known_size_end", "closed_by_end_of_input", "writer_encodings", "buffer_boundary_docs"] {
+    for c in ["closed_by_sibling", "closed_by_element_one_level_up", "closed_by_element_two_or_more_levels_up", "closed_by_enclosing_known_size_end", "closed_by_end_of_input", "writer_encodings", "buffer_boundary_docs", "unknown_id_element_inside_unknown_size_encodings"] {
         ctx.expect_nonzero(c);
     }
     let cfg = Cfg::strict();
@@ -149,6 +149,7 @@ pub fn run(ctx: &mut Ctx) {
 
 fn sweep<T: SpecT>(ctx: &mut Ctx, rs: &RefSpec, plist: Vec<DocParams>, label: &str) {
     let cfg = Cfg::strict();
+    let raw_variants = label == "V";
     for p in plist {
     docs::for_each_doc(ctx, rs, &p, &mut |ctx, doc| {
         if gen::has_ambiguous_global_after_unknown(rs, doc) {
@@ -202,7 +203,74 @@ fn sweep<T: SpecT>(ctx: &mut Ctx, rs: &RefSpec, plist: Vec<DocParams>, label: &s
         }
         ctx.validated += 1;
         ctx.leave();
+        if raw_variants && !kinds.is_empty() {
+            tolerated_unknown_ids::<T>(ctx, rs, doc, label);
+        }
         !ctx.should_stop()
     });
+    }
+}
+
+/// every way of putting one element with an id outside the specification into the tree (not directly after an
+/// unknown-size master, where it cannot be told from a child of that master)
+fn raw_insertions(doc: &[Node]) -> Vec<Vec<Node>> {
+    fn count_lists(doc: &[Node]) -> usize {
+        1 + doc.iter().map(|n| if let Kind::Master(ch) = &n.kind { count_lists(ch) } else { 0 }).sum::<usize>()
+    }
+    fn insert(doc: &mut Vec<Node>, list: &mut usize, pos: usize, top: bool) -> Option<bool> {
+        // returns Some(true) when inserted, Some(false) when the position is excluded, None when not in this subtree
+        if *list == 0 {
+            if pos > doc.len() || (top && pos == 0) {
+                return Some(false);
+            }
+            if pos > 0 && doc[pos - 1].is_master() && matches!(doc[pos - 1].size, SizeEnc::Unknown(_)) {
+                return Some(false);
+            }
+            doc.insert(pos, Node { id: 0xf2, kind: Kind::RawLeaf(vec![0x42]), size: SizeEnc::Min });
+            return Some(true);
+        }
+        *list -= 1;
+        for n in doc.iter_mut() {
+            if let Kind::Master(ch) = &mut n.kind {
+                if let Some(r) = insert(ch, list, pos, false) {
+                    return Some(r);
+                }
+            }
+        }
+        None
+    }
+    let mut out = Vec::new();
+    for l in 0..count_lists(doc) {
+        for pos in 0..8 {
+            let mut d = doc.to_vec();
+            let mut li = l;
+            if insert(&mut d, &mut li, pos, true) == Some(true) {
+                out.push(d);
+            }
+        }
+    }
+    out
+}
+
+/// unknown ids tolerated: an element with an id outside the specification is an ordinary child wherever it stands and
+/// never ends an unknown-size master
+fn tolerated_unknown_ids<T: SpecT>(ctx: &mut Ctx, rs: &RefSpec, doc: &[Node], label: &str) {
+    let cfg = Cfg::strict().with_allow(crate::obs::ALLOW_IDS);
+    for v in raw_insertions(doc) {
+        let d = || format!("{} unknown ids tolerated doc=[{}]", label, docs::doc_short(rs, &v));
+        if !ctx.enter(&d) {
+            continue;
+        }
+        ctx.nontrivial();
+        ctx.count("unknown_id_element_inside_unknown_size_encodings", 1);
+        let (bytes, lay) = ref_encode(&v);
+        let want = flatten(&v, &lay);
+        let obs = parse_slice::<T>(&bytes, &cfg);
+        ctx.transitions += obs.items.len() as u64 + 1;
+        if obs.items != want || !obs.clean() {
+            ctx.violation("unknown-id-tolerated/differs-from-tree", &d, &format!("bytes={} expected [{}] observed {}", hex(&bytes), want.iter().map(|(i, o)| format!("{}@{}", i.short(), o)).collect::<Vec<_>>().join(" "), obs.short()));
+        }
+        ctx.validated += 1;
+        ctx.leave();
     }
 }
